@@ -161,7 +161,8 @@ func canon(fr *Frame, env map[ssa.Value]Expr, v ssa.Value, depth int) Expr {
 	case *ssa.FieldAddr:
 		b := rec(x.X)
 		k := fieldKeyOf(x.X.Type(), x.Field)
-		return Expr{S: "&" + b.S + "." + k.Field, Deps: mergeDeps(b.Deps, fieldDep(k))}
+		// a base that is itself the address of an embedded struct prints as a path
+		return Expr{S: "&" + strings.TrimPrefix(b.S, "&") + "." + k.Field, Deps: mergeDeps(b.Deps, fieldDep(k))}
 	case *ssa.Field:
 		b := rec(x.X)
 		k := fieldKeyOf(x.X.Type(), x.Field)
